@@ -126,6 +126,7 @@ func gname(g *ssa.Global) string { return short(g.Pkg.Pkg.Path()) + "." + g.Name
 func rulesC20(p *Prog, r *Report) {
 	r.Explanation = "Decides the structural necessary conditions of the genesis round trip, per module: (R20.1) every key prefix the module's keeper writes anywhere is either read under ExportGenesis and written under InitGenesis, or re-derived (written) under InitGenesis; a prefix that is neither exported nor re-derived is state that does not survive the round trip; (R20.2) every field of the module's GenesisState that ExportGenesis fills is read by InitGenesis, and every field InitGenesis reads is filled by ExportGenesis; (R20.3) every bulk reader used by export decodes what it appends (the appended element is the target of an Unmarshal of the iterator value). It does not decide behavioural equality after the round trip, nor that values restored are the values exported beyond the field/prefix agreement."
 	r.Assumptions = []string{"key prefixes are the package-level []byte variables of x/*/types; two different variables are different prefixes", "bank/auth state is exported by the SDK modules"}
+	keyArgAgreement(p, r, "R20.8", 20)
 
 	gens := p.Genesis()
 	type modGen struct{ init, export []*ssa.Function }
